@@ -29,7 +29,9 @@ func (w *World) afterMain() {
 	w.checkCore()
 }
 
-var libFrameRe = regexp.MustCompile(`github\.com/relab/gorums\.([^\s(]+(?:\([^)]*\))?[^\s(]*)\(`)
+var libFrameRe = regexp.MustCompile(`github\.com/relab/gorums\.((?:\(\*?[\w.]+\)\.)?[\w.]+)\(`)
+
+var genFrameRe = regexp.MustCompile(`gorumsim/zsvc\.((?:\(\*?[\w.]+\)\.)?[\w.]+)\(`)
 
 // checkPanics: a panic (or modelled fatal error) in any goroutine that runs library code
 // would have crashed the process; it is reported under the property of the running profile.
@@ -38,6 +40,8 @@ func (w *World) checkPanics() {
 		fn := "harness"
 		if m := libFrameRe.FindStringSubmatch(p.Stack); m != nil {
 			fn = m[1]
+		} else if m := genFrameRe.FindStringSubmatch(p.Stack); m != nil {
+			fn = "generated:" + m[1] // code emitted by the plugin is part of the library
 		} else if !p.Fatal {
 			// a panic without any library frame on the stack is a harness problem
 			w.note("harness panic in %s: %s", p.Task, p.Value)
@@ -49,7 +53,64 @@ func (w *World) checkPanics() {
 	}
 }
 
-var profileAfterMain = map[string]func(w *World){}
+var profileAfterMain = map[string]func(w *World){
+	"C06": afterC06,
+}
+
+// afterC06: one-way calls return without waiting for any handler: after a fair grace phase in
+// which no handler gate opens, every unicast / multicast whose context has not ended and whose
+// targets are all reachable must have returned. After the settle phase every targeted node of
+// such a call has received the message exactly once.
+func afterC06(w *World) {
+	w.grace("grace", false, 10*time.Second, 8000, nil)
+	clean := !w.anyConnFault() && w.net.Stats.DialTimeouts == 0 && w.net.Stats.Refused == 0
+	for _, c := range w.calls[1:] {
+		if c.InvokeSeq == 0 || (c.Info.Kind != "mcast" && c.Info.Kind != "ucast") {
+			continue
+		}
+		if c.Panic != "" {
+			w.violate("C06", "panic", "", "call t%d (%s) panicked: %s", c.Tok, c.Stub, c.Panic)
+			continue
+		}
+		if c.CtxEndSeq != 0 || !clean || c.Op.PadKB > 0 {
+			continue
+		}
+		ret := c.ReturnSeq != 0
+		w.rule("C06.one-way-returns-without-handlers", ret)
+		if !ret {
+			w.violate("C06", "one-way-blocked", "", "call t%d (%s, %d targeted nodes, no-send-waiting=%v) has not returned although its context is live, every node is reachable and only server handlers are blocked: %s", c.Tok, c.Stub, len(c.Targets), c.Op.NoSendWait, w.whereIs(c))
+		}
+	}
+	w.defaultSettle()
+	w.checkCore()
+	clean = !w.anyConnFault() && w.net.Stats.DialTimeouts == 0 && w.net.Stats.Refused == 0 && w.net.Stats.Resets == 0
+	for _, c := range w.calls[1:] {
+		if c.InvokeSeq == 0 || c.ReqVal == "" || (c.Info.Kind != "mcast" && c.Info.Kind != "ucast") {
+			continue
+		}
+		if c.CtxEndSeq != 0 || !clean || c.ReturnSeq == 0 {
+			continue
+		}
+		for _, si := range c.Targets {
+			// a cancellation of some other call makes the library reset the node's stream, which
+			// loses messages in flight; only judge nodes whose stream was never replaced
+			nstreams := 0
+			for _, st := range w.servers[si].allStreams {
+				if st.Client == w.mgrs[c.Mgr].Name {
+					nstreams++
+				}
+			}
+			if nstreams != 1 {
+				continue
+			}
+			n := len(w.handlersFor(c, si))
+			w.rule("C06.exactly-once-when-reachable", n == 1)
+			if n != 1 {
+				w.violate("C06", "one-way-not-delivered", "", "call t%d (%s): node of server %d received the message %d times although it is reachable and the context was never cancelled", c.Tok, c.Stub, si, n)
+			}
+		}
+	}
+}
 
 func (w *World) horizon() time.Duration {
 	h := time.Duration(float64(w.Cfg.BackoffMaxMs)*2.5)*time.Millisecond + 30*time.Second
@@ -213,6 +274,25 @@ func (w *World) checkCallQF(c *Call) {
 	if c.DoneSeq == 0 || !c.HasRes {
 		return
 	}
+	if c.Err != nil {
+		// at most one answer per node: no node is listed twice, and none that also replied
+		seen := map[uint32]int{}
+		for _, e := range parseNodeErrors(c.ErrText) {
+			seen[e.ID]++
+		}
+		var lastSet map[uint32]int64
+		if n := len(c.QFInv); n > 0 {
+			lastSet = c.QFInv[n-1].Replies
+		}
+		for id, n := range seen {
+			_, replied := lastSet[id]
+			ok := n == 1 && !replied
+			w.rule("C05.at-most-one-answer-per-node", ok)
+			if !ok {
+				w.violate("C05", "duplicate-answer", "", "call t%d (%s): node %d delivered %d errors (and a reply: %v) to one non-streaming call", c.Tok, c.Stub, id, n, replied)
+			}
+		}
+	}
 	var last *QFInvocation
 	if n := len(c.QFInv); n > 0 {
 		last = c.QFInv[n-1]
@@ -351,8 +431,14 @@ func (w *World) checkCallOutcome(c *Call) {
 	default:
 		w.violate("C02", "other-outcome", "", "call t%d (%s) ended with %q, which is neither success, Incomplete nor the context's error", c.Tok, c.Stub, firstLine(c.ErrText))
 	}
-	// futures: all Get results identical
+	// futures: every Get on a completed future returns, and all Get results are identical
 	if c.Info.Kind == "async" {
+		if c.getsStarted > len(c.Gets) {
+			w.rule("C02.get-returns", false)
+			w.violate("C02", "get-blocked", "", "call t%d (%s): the future is complete but %d of %d Get invocations have not returned", c.Tok, c.Stub, c.getsStarted-len(c.Gets), c.getsStarted)
+		} else if c.getsStarted > 0 {
+			w.rule("C02.get-returns", true)
+		}
 		for _, g := range c.Gets {
 			same := sameMsg(g.Ret, c.Ret) && fmt.Sprint(g.Err) == fmt.Sprint(c.Err)
 			w.rule("C02.get-stable", same)
